@@ -64,5 +64,5 @@ MUTATIONS = [
 
 def run(ctx):
     from ..rules import exc, sC22, pC22
-    from ..rules import excown
-    return gen.label_rules(ctx) + [gen2.rule_G2(ctx), gen2.rule_G1(ctx)] + exc.rules(ctx) + [sC22.rule_cause(ctx), sC22.rule_cause_shortcut(ctx)] + pC22.rules(ctx) + [excown.rule_excvars(ctx)]
+    from ..rules import excown, dD4
+    return gen.label_rules(ctx) + [gen2.rule_G2(ctx), gen2.rule_G1(ctx)] + exc.rules(ctx) + [sC22.rule_cause(ctx), sC22.rule_cause_shortcut(ctx)] + pC22.rules(ctx) + [excown.rule_excvars(ctx)] + [dD4.rule_parked(ctx), dD4.rule_retlive(ctx)]
